@@ -511,6 +511,8 @@ func init() {
 			{Scenario: "ws.writers", Params: vx.P("writers", "2", "per", "2"), Bound: 2, BudgetS: 100, Weight: 7},
 			{Scenario: "tls.writefault", Params: vx.P("msgs", "3"), Bound: 0, BudgetS: 100, Weight: 2},
 			{Scenario: "mux.cutrecord", Params: vx.P("frames", "3", "plen", "7"), Bound: 0, BudgetS: 100, Weight: 2},
+			{Scenario: "hs.serverfirst", Params: vx.P("browser", "firefox", "seg", "2"), Bound: 2, BudgetS: 100, Weight: 6},
+			{Scenario: "hs.serverfirst", Params: vx.P("browser", "chrome", "seg", "0", "method", "aes-256-gcm"), Bound: 2, BudgetS: 100, Weight: 6},
 			{Scenario: "ws.segment", Weight: 4},
 			{Scenario: "ws.segment", Params: vx.P("big", "1"), Weight: 6},
 		}
